@@ -173,9 +173,11 @@ CLAIMED['C01'] = dict(
          'while holding it; unlock by a non-owner changes nothing, otherwise the owner word is handed to the head waiter (null if none / '
          'contending) BEFORE exactly that waiter is woken; the recursive depth arithmetic releases the mutex exactly at depth 0; spinlock '
          'lock/try_lock succeed exactly when this call flipped the flag false -> true; ticket lock returns only when its own ticket is served '
-         'and unlock advances serv by one.',
+         'and unlock advances serv by one; qspinlock (MCS): try_lock takes the lock only from the free state, lock enqueues its holder once, '
+         'clears its own flag only before linking behind the predecessor and returns only after observing the hand-over, unlock does exactly one of '
+         'handing the lock to its linked successor or resetting the tail when nobody is queued.',
     note=TRUST + ' NOT decided: mutual exclusion across sleeping waiters as a whole-history property, timeouts/interrupts racing with the '
-         'hand-off (the -1 paths may coincide with a hand-off), standby-queue wake-ups, qspinlock; sequentially consistent atomics; the rely on '
+         'hand-off (the -1 paths may coincide with a hand-off), standby-queue wake-ups; sequentially consistent atomics; the rely on '
          'other threads is justified by the same contracts (closed world); invariant-per-step => all interleavings is a paper argument.',
     technique='deductive verification: step contracts under an interference (rely) model + Hoare loop rule, CBMC on mechanically lowered real code',
     design='§6 C01, §3.4')
